@@ -173,6 +173,8 @@ def mkset(z, kind, size):
     """List of constraints on the 2-vector z (random variable of ro/dro, or E(z)) of the given kind and size."""
     rso = R['rso']
     c, r = SIZES[size]
+    if kind == 'empty':         # no constraint at all: forall() / minmax(obj) with an empty set definition
+        return []
     if kind == 'bnd':
         return [z <= c + r, z >= c - r]
     if kind == 'lin':
